@@ -78,21 +78,21 @@ def _work(args):
     succ = {}
     try:
         for hist in hists:
-            st = machine.build(alpha, hist, spec.values)
+            st = spec.build(hist)
             # state oracles on this (new) state
             spec.check_state(st, out)
             out.evaluations += 1
             if not expand:
                 continue
-            pre = spec.pre(st)
-            dirty = False
+            dirty = spec.mutating_checks
             for i, op in enumerate(alpha):
                 if dirty:
-                    st = machine.build(alpha, hist, spec.values)
+                    st = spec.build(hist)
                     dirty = False
                 h2 = hist + (i,)
                 try:
-                    machine.apply(st, op, spec.values)
+                    pre = spec.pre(st, op)
+                    spec.apply(st, op)
                 except machine.NotEnabled as e:
                     out.filters[e.args[0]] += 1
                     continue
@@ -111,7 +111,7 @@ def _work(args):
                 out.transitions += 1
                 out.conform += 1
                 spec.check_transition(pre, op, st, out)
-                d = digest(machine.canon(st))
+                d = digest(spec.canon(st))
                 if d not in succ:
                     succ[d] = h2
     except Exception:
